@@ -94,6 +94,7 @@ type Fx struct {
 	binders  int      // >0 while evaluating under a quantifier
 	bound    []string // names of the bound variables in scope
 	asserted map[string]bool
+	freshRefs  map[string]bool // refs allocated by the function under verification (objects under construction)
 	topFrame   *Frame
 	entryState *State
 	allowed    map[string]*frameAllow // nil: the function has no contract (no frame checking)
